@@ -53,12 +53,20 @@ func genC14(r *Rand, tier string, i int) *h.Scenario {
 }
 
 func expandC14(base *h.Scenario, hi *Hist, r *Rand, tier string) []*h.Scenario {
-	if hi.Res.Outcome != simrt.OK || base.InjectAt != never {
+	if hi.Res.Outcome == simrt.Panic || base.InjectAt != never {
 		return nil
 	}
 	n := hi.Res.MainExitAt
 	if hi.WaitOut >= 0 {
 		n = hi.Log[hi.WaitOut].Step
+	}
+	if hi.Res.Outcome != simrt.OK {
+		// the program does not come to an end on its own (which is for C01 to report): a
+		// cancellation on the way there must end it all the same
+		if len(hi.Log) == 0 {
+			return nil
+		}
+		n = hi.Log[len(hi.Log)-1].Step
 	}
 	var pts []int64
 	limit := int64(400)
